@@ -52,9 +52,9 @@ ASSUMPTIONS = ["tensor models respect the declared symmetries "
                "distinct Index objects have distinct hashes; names i and i0 / "
                "i3 and i03 are not used together",
                "bra-ket orbit theorem: no two different dummies share a name "
-               "and (bra_ket_sym=-1) bra and ket are not the same index set "
-               "- both exclusions are exhibited by _refuted theorems; the "
-               "second is reported as a finding"]
+               "(exclusion exhibited by C06_braket_same_name_refuted)",
+               "assumptions: a name is not declared symmetric and "
+               "antisymmetric at once (the code raises on re-application)"]
 
 KINDS = ["KAnti", "KSym", "KAmp"]
 KCODE = {"KAnti": 0, "KSym": 1, "KAmp": 2, "KNonSym": 3}
@@ -455,7 +455,8 @@ def run_constructors(ctx, pool):
                       f"property check failed: {what}",
                       {"call": show(kind, b, u, l, pool), "result": e,
                        "related": str(o[6:])}, True)
-    # the known shape: bra-ket antisymmetric, bra and ket the same index set
+    # corpus probe of the defect repaired by 2521687: bra-ket antisymmetric,
+    # bra and ket the same index set
     i, j = get_symbols("ij")
     probe = AntiSymmetricTensor("T", (i, j), (i, j), -1)
     ctx.obligation("bra-ket antisymmetric tensor with identical bra and ket "
@@ -468,12 +469,11 @@ def run_constructors(ctx, pool):
             DIAG_KEY,
             "AntiSymmetricTensor('T',(i,j),(i,j),-1) is returned as "
             "+T^{ij}_{ij}; bra-ket antisymmetry forces T^{ij}_{ij} = "
-            "-T^{ij}_{ij} = 0 (same for SymmetricTensor / Amplitude and every "
-            "rank)",
+            "-T^{ij}_{ij} = 0 (defect repaired by 2521687 has returned)",
             {"call": "AntiSymmetricTensor('T',(i,j),(i,j),-1)",
              "result": str(probe), "expected": "0",
              "instances_this_run": len(diag), "examples": ex,
-             "theorem": "C06_mk_anti_braket_diag_refuted"}, True)
+             "theorem": "C06_mk_tensor_braket_diag_zero"}, True)
     elif diag:
         for d in diag[:3]:
             ctx.violation(f"C06:braket-antisym-diagonal:{show(*d[:4], pool)}",
@@ -860,6 +860,15 @@ def run_assumptions(ctx, pool):
                         f"run_assume ({'true' if real else 'false'}, {sy}, "
                         f"{an}, ({KCODE[atom[1]]}, \"{atom[2]}\", {bb}, "
                         f"{zl(u)}, {zl(l)}))")
+                    # first phase only (declared symmetry incl. f, V when
+                    # real, before the cc-renaming)
+                    sy1 = "[" + "; ".join(
+                        f'"{s_}"' for s_ in
+                        ((["f", "V"] if real else []) + list(syms))) + "]"
+                    tens_cases.append(
+                        f"run_assume (false, {sy1}, "
+                        f"{an}, ({KCODE[atom[1]]}, \"{atom[2]}\", {bb}, "
+                        f"{zl(u)}, {zl(l)}))")
     vals, errs = ctx.coq_eval("assume", tens_cases, header=HEADER,
                               defs=pool.coq_defs(), shard=150)
     ctx.obligation(f"coq evaluation of assume_obj on {len(tens_cases)} "
@@ -873,32 +882,45 @@ def run_assumptions(ctx, pool):
                  sample={"expr": str(e)[:200], "real": real, "sym": syms,
                          "antisym": antis, "out": str(out)[:200]})
         # ---- model prediction, reassembled term by term ----
+        # All objects of a phase are evaluated (an exception anywhere wins);
+        # a term with a factor that vanishes in the first phase is gone
+        # before the later phases (renaming, second symmetry pass) run.
         pred, err, incomplete = [], False, False
-        for c, facs in terms_in:
-            coef, nf, zero = Fraction(c), [], False
-            for atom, inv in facs:
-                if atom[0] == "T" and atom[1] != "KNonSym":
-                    m = model[tens_index[(real, tuple(syms), tuple(antis),
-                                          atom)]]
-                    if m is None:
-                        incomplete = True
-                        break
-                    name, lst = m
-                    if lst[0] == 2:
-                        err = True
-                        break
-                    if lst[0] == 0:
-                        zero = True
-                        break
-                    if lst[1]:
-                        coef = -coef
-                    nf.append((py_atom_of_enc(name, lst, pool), inv))
-                else:
-                    nf.append((atom, inv))
-            if err or incomplete:
-                break
-            if not zero:
-                pred.append((coef, nf))
+
+        def look(atom, phase1):
+            k_ = tens_index[(real, tuple(syms), tuple(antis), atom)]
+            return model[k_ + (1 if phase1 else 0)]
+        tens_of = [[(atom, inv) for atom, inv in facs
+                    if atom[0] == "T" and atom[1] != "KNonSym"]
+                   for c, facs in terms_in]
+        p1 = [[look(a_, True) for a_, _ in ts] for ts in tens_of]
+        fl = [[look(a_, False) for a_, _ in ts] for ts in tens_of]
+        if any(m is None for ms in p1 + fl for m in ms):
+            incomplete = True
+        elif any(m[1][0] == 2 for ms in p1 for m in ms):
+            err = True
+        else:
+            alive = [n_ for n_, ms in enumerate(p1)
+                     if not any(m[1][0] == 0 for m in ms)]
+            if any(m[1][0] == 2 for n_ in alive for m in fl[n_]):
+                err = True
+            else:
+                for n_ in alive:
+                    c, facs = terms_in[n_]
+                    coef, nf, zero = Fraction(c), [], False
+                    for atom, inv in facs:
+                        if atom[0] == "T" and atom[1] != "KNonSym":
+                            name, lst = look(atom, False)
+                            if lst[0] == 0:
+                                zero = True
+                                break
+                            if lst[1]:
+                                coef = -coef
+                            nf.append((py_atom_of_enc(name, lst, pool), inv))
+                        else:
+                            nf.append((atom, inv))
+                    if not zero:
+                        pred.append((coef, nf))
         if incomplete:
             ctx.obligation(f"assume {label}: model evaluated", False)
             continue
@@ -937,7 +959,10 @@ def run_assumptions(ctx, pool):
         tin, tout = untouched(terms_in), untouched(terms_out)
         ctx.obligation(f"assume {label}: undeclared tensors untouched",
                        set(tout) <= set(tin), str((tin, tout))[:300])
-        both = any(atom[0] == "T" and atom[2] in syms_eff and atom[2] in antis
+        def final_names(nm):
+            return {nm, real_name(nm)} if (real and is_t_amp(nm)) else {nm}
+        both = any(atom[0] == "T" and any(m in syms_eff and m in antis
+                                          for m in final_names(atom[2]))
                    for c, facs in terms_in for atom, inv in facs)
         if both:
             continue   # declared symmetric and antisymmetric: raises later
@@ -957,36 +982,29 @@ def run_assumptions(ctx, pool):
             idem = idem and E3.sympy == out
         except (Inputerror, NotImplementedError) as ex:
             idem, second = False, f"raises {type(ex).__name__}"
-        shape = real and any(
-            atom[0] == "T" and is_t_amp(atom[2])
-            and real_name(atom[2]) != atom[2]
-            and ((real_name(atom[2]) in syms_eff) != (atom[2] in syms_eff)
-                 or (real_name(atom[2]) in antis) != (atom[2] in antis))
-            for c, facs in terms_in for atom, inv in facs)
         if not ctx.obligation(f"assume {label}: applying the assumptions "
                               "twice = once", idem,
                               f"{out} -> {second}"):
             if label == "probe-idem":
                 ctx.violation(
                     IDEM_KEY,
-                    "Expr(t1cc^a_i, real=True, sym_tensors=['t1']) gives "
-                    "t1^a_i (bra_ket_sym 0); applying the same assumptions "
-                    "again gives t1^i_a (bra_ket_sym 1): the symmetry is "
-                    "applied before the cc-amplitude is renamed",
+                    "Expr(t1cc^a_i, real=True, sym_tensors=['t1']) is not "
+                    "stable under re-application of the same assumptions "
+                    "(the declared symmetry must also reach the renamed "
+                    "cc-amplitude; defect repaired by ca056bd has returned)",
                     {"expr": str(e), "first": str(out),
                      "second": str(second),
-                     "theorem": "C06_assumptions_idempotent_refuted"}, True)
-            elif not shape:
+                     "theorem": "C06_assumptions_cc_example / "
+                                "C06_assumptions_idempotent"}, True)
+            else:
                 ctx.violation(f"C06:assume-idempotent:{label}:{e}",
                               "applying the assumptions twice differs from "
                               "applying them once",
                               {"expr": str(e), "real": real, "sym": syms,
                                "antisym": antis, "first": str(out),
                                "second": str(second)}, True)
-            else:
-                ctx.note(f"{label}: further instance of {IDEM_KEY}")
         # ---- alternative path: setters ----
-        if not (set(syms) & set(antis)) and not shape:
+        if not (syms_eff & set(antis)):
             try:
                 E4 = Expr(e)
                 E4.set_sym_tensors(list(syms))
